@@ -169,8 +169,8 @@ fn firsts(rep: &Report, _tier: Tier) {
         let pd = pdu(p, 0);
         let mut bl = bs.clone();
         bl.extend(b_relative(p, l.wire_len(), 0));
-        for prior in [Prior::Fresh, Prior::Same, Prior::SameAtMax, Prior::SameBelowMax, Prior::Other] {
-            if !matches!(prior, Prior::Fresh | Prior::Other) && !l.is_addr() {
+        for prior in [Prior::Fresh, Prior::Same, Prior::SameAtMax, Prior::SameBelowMax, Prior::Other, Prior::OtherThenRefused] {
+            if !matches!(prior, Prior::Fresh | Prior::Other | Prior::OtherThenRefused) && !l.is_addr() {
                 continue;
             }
             let base = build_prior(FastCrc, prior, l);
